@@ -10,6 +10,7 @@ use unic_langid_impl::LanguageIdentifier;
 use unic_locale_impl::extensions::ExtensionsMap;
 use unic_locale_impl::Locale;
 
+fn cand_lang(l: &LanguageIdentifier) -> &str { l.language.as_str() }
 fn hex(b: &[u8]) -> String { b.iter().map(|c| format!("{:02x}", c)).collect() }
 
 // ------------------------------------------------------------------------------------------------ rt (C05)
@@ -43,6 +44,14 @@ pub fn rt_check(v: &[u8]) -> Option<String> {
     }
     if let Ok(l) = LanguageIdentifier::from_bytes(v) {
         let s = l.to_string();
+        // C12: `== &str` is true iff the string is the canonical text
+        let under = s.replace('-', "_");
+        let upper = s.to_ascii_uppercase();
+        let vs = String::from_utf8_lossy(v).to_string();
+        for cand in [s.as_str(), under.as_str(), upper.as_str(), vs.as_str(), "en", ""] {
+            if (l == cand) != (cand == s) { return Some(format!("LanguageIdentifier \"{}\" == \"{}\" is {}, but the canonical text is \"{}\"", s, cand, l == cand, s)); }
+        }
+        if (l.language == cand_lang(&l)) != true { return Some(format!("Language of \"{}\" != its own as_str()", s)); }
         match LanguageIdentifier::from_bytes(s.as_bytes()) {
             Ok(l2) => if l2 != l { return Some(format!("LanguageIdentifier b\"{}\" prints \"{}\", which re-parses to a different value", crate::esc(v), s)); },
             Err(e) => return Some(format!("LanguageIdentifier b\"{}\" prints \"{}\", which does not re-parse: {:?}", crate::esc(v), s, e)),
@@ -468,6 +477,58 @@ pub fn serde_search() -> Option<(Vec<u8>, String)> {
                 let mut p = 0;
                 while p < n { idx[p] += 1; if idx[p] < a.len() { break; } idx[p] = 0; p += 1; }
                 if p == n { break; }
+            }
+        }
+    }
+    None
+}
+
+// ------------------------------------------------------------------------------------------------ likely (C07 / C08 wrappers)
+pub fn likely_check(id: &str) -> Option<String> {
+    let x: LanguageIdentifier = id.parse().ok()?;
+    let vars: Vec<Variant> = x.variants().cloned().collect();
+    let full = |l: &LanguageIdentifier| !l.language.is_empty() && l.script.is_some() && l.region.is_some();
+    // maximize
+    let mut m = x.clone();
+    let changed = m.maximize();
+    if changed != (m != x) { return Some(format!("maximize(\"{}\") returned {} but the value {} (now \"{}\")", id, changed, if m != x { "changed" } else { "did not change" }, m)); }
+    if m.variants().cloned().collect::<Vec<_>>() != vars { return Some(format!("maximize(\"{}\") touched the variants: \"{}\"", id, m)); }
+    if changed {
+        if !full(&m) { return Some(format!("maximize(\"{}\") = \"{}\" leaves a subtag empty", id, m)); }
+        if (!x.language.is_empty() && m.language != x.language) || (x.script.is_some() && m.script != x.script) || (x.region.is_some() && m.region != x.region) {
+            return Some(format!("maximize(\"{}\") = \"{}\" replaced a subtag that was given", id, m));
+        }
+    }
+    let mut mm = m.clone();
+    if mm.maximize() || mm != m { return Some(format!("maximize is not idempotent on \"{}\": \"{}\" then \"{}\"", id, m, mm)); }
+    // minimize
+    let mut n = x.clone();
+    let nchanged = n.minimize();
+    if !nchanged && n != x { return Some(format!("minimize(\"{}\") returned false but changed the value to \"{}\"", id, n)); }
+    if n.variants().cloned().collect::<Vec<_>>() != vars { return Some(format!("minimize(\"{}\") touched the variants: \"{}\"", id, n)); }
+    if nchanged {
+        let mut nm = n.clone(); nm.maximize();
+        if nm != m { return Some(format!("minimize(\"{}\") = \"{}\" maximizes to \"{}\", the original to \"{}\"", id, n, nm, m)); }
+        if n.language != m.language || (n.script.is_some() && n.script != m.script) || (n.region.is_some() && n.region != m.region) {
+            return Some(format!("minimize(\"{}\") = \"{}\" uses a subtag the maximized original \"{}\" lacks", id, n, m));
+        }
+        let cnt = |l: &LanguageIdentifier| l.script.is_some() as u8 + l.region.is_some() as u8;
+        if cnt(&n) > cnt(&x) { return Some(format!("minimize(\"{}\") = \"{}\" has more script/region subtags than the original", id, n)); }
+    }
+    let mut nn = n.clone(); nn.minimize();
+    if nn != n { return Some(format!("minimize is not idempotent on \"{}\": \"{}\" then \"{}\"", id, n, nn)); }
+    None
+}
+/// bound: 16 languages (incl. und and an unknown one) x 10 scripts (incl. none, unknown) x 11 regions (incl. none, unknown) x {no variant,
+/// one variant}; laws of C07 / C08 that need no reference data (the F1 inputs of C08 are not among the laws checked here)
+pub fn likely_search() -> Option<(Vec<u8>, String)> {
+    for l in ["und", "en", "zh", "sr", "ar", "ku", "ms", "rif", "pa", "uz", "ff", "az", "kk", "mn", "he", "xx"] {
+        for s in ["", "-Latn", "-Cyrl", "-Arab", "-Hant", "-Hans", "-Thai", "-Adlm", "-Mong", "-Xxxx"] {
+            for r in ["", "-US", "-CN", "-TW", "-ME", "-AM", "-ID", "-PK", "-UK", "-419", "-XX"] {
+                for v in ["", "-fonipa"] {
+                    let id = format!("{}{}{}{}", l, s, r, v);
+                    if let Some(d) = likely_check(&id) { return Some((id.into_bytes(), d)); }
+                }
             }
         }
     }
